@@ -179,12 +179,21 @@ Proof. exact ebc_wei_correct. Qed.
 Theorem C08_ebc_bin_correct : ebc_correct_bin.
 Proof. exact ebc_bin_correct. Qed.
 
-(* betweenness_bin (matrix powers + back-propagation).  Matrix-power induction: the d-th power of a 0/1 matrix holds
-   sigma(i,j) wherever dist(i,j) = d and 0 wherever dist(i,j) > d or j is unreachable *)
+(* betweenness_bin (products of 0/1 matrices + back-propagation).  Matrix-power induction: the d-th power of a 0/1 matrix
+   holds sigma(i,j) wherever dist(i,j) = d and 0 wherever dist(i,j) > d or j is unreachable; and what the loop forms
+   (`NPd = np.dot(NSPd, G)`: only the minimum-length walks of d connections are extended, X below is NSPd whose
+   off-diagonal entries are NSPd_spec n G d a k = sigma(a,k) if dist(a,k) = d, else 0) has on every pair farther
+   apart than d - the entries kept by `* (L == 0)` - the entry of the (d+1)-th power, i.e. the number of
+   minimum-length walks of d+1 connections: NPd[i,j] counts the (d+1)-walks whose first d connections are a
+   minimum-length walk, and towards such a j every (d+1)-walk is one *)
 Theorem C08_matrix_power_counts : forall n G, binary n G -> forall dn i j, (i < n)%nat -> (j < n)%nat ->
   ((dist_spec n G i j = None \/ exists e, dist_spec n G i j = Some e /\ (Z.of_nat dn < e)%Z) -> mpow n G dn i j = 0%Z) /\
-  (dist_spec n G i j = Some (Z.of_nat dn) -> mpow n G dn i j = sigma n G i j).
-Proof. exact pow_sigma. Qed.
+  (dist_spec n G i j = Some (Z.of_nat dn) -> mpow n G dn i j = sigma n G i j) /\
+  (forall X, (1 <= dn)%nat -> i <> j ->
+     (forall a k, (a < n)%nat -> (k < n)%nat -> a <> k -> X a k = NSPd_spec n G (Z.of_nat dn) a k) ->
+     (forall e, dist_spec n G i j = Some e -> (Z.of_nat dn < e)%Z) ->
+     mmulZ n X G i j = mpow n G (S dn) i j /\ mmulZ n X G i j = NSPd_spec n G (Z.of_nat (S dn)) i j).
+Proof. exact pow_sigma_ext. Qed.
 (* forward phase: `while np.any(NSPd)` ends within its fuel; then L (after L[L==0]=inf, L[I]=0) is the distance matrix and
    NSP (after NSP[NSP==0]=1) the matrix of numbers of minimum-length walks; d-1 bounds every distance *)
 Theorem C08_bc_bin_forward : forall n G, binary n G ->
